@@ -287,6 +287,13 @@ Qed.
 End GOA.
 
 (* ---------- the statements ---------- *)
+Theorem conv_ascii_b uc : unicode_ok uc -> forall acrs name, str_ascii name = true ->
+  exists r, go_convert_acronyms_to_uppercase uc acrs name = Ok r /\ str_ascii r = true.
+Proof.
+  intros Huc acrs name H. destruct (conv_ascii uc Huc acrs name (asc_b _ H)) as (r & E & Hr).
+  exists r. split; [exact E|]. now apply ga_ascii_b.
+Qed.
+
 (* ASCII input (and the front end's shape): Go never panics, whatever the acronym list *)
 Theorem go_generate_never_panics_ascii uc cfg pd : unicode_ok uc ->
   go_input_ascii (go_type_mappings cfg) pd = true -> pd_wf pd = true -> no_panic (go_generate uc cfg pd).
